@@ -44,4 +44,5 @@ def run(check: Check) -> None:
     from . import loaders
 
     loaders.loader(check, "Consequent.load")
+    wiring.rule_load_semantics(check)  # the conclusions are those of the text the rule has now: Rule.load reloads both parts whatever was loaded before
     check.exhaustive_parts.append("one iteration of Consequent.modify under enabled/disabled")
